@@ -36,10 +36,31 @@ def r05_1(ck, F):
     pp = [(bb, t) for bb, t in pushes if mir.calls_in(b.expr(t["a"][1]), "chmux::port_allocator::PortReq::new")]
     cp = [(bb, t) for bb, t in pushes if pp and bb != pp[0][0] and _same_next(b, b.expr(pp[0][1]["a"][1]), b.expr(t["a"][1]))]
     ok = len(pp) == 1 and len(cp) == 1
-    ck.expect(ok, "base::Sender::send#collect", "port and callback pushed from the same tuple of the same iteration",
-              "ports and callbacks are not collected from the same request tuple", b.loc(pp[0][0]) if pp else b.loc(0))
     ports_vec = b.expr(pp[0][1]["a"][0]) if pp else None
     cb_vec = b.expr(cp[0][1]["a"][0]) if cp else None
+    uz = [(bb, t) for bb, t in b.calls("std::iter::Iterator::unzip")]
+    if not pp and len(uz) == 1:
+        # the same pairing written as requests.into_iter().map(|(port, cb)| (PortReq::new(port), cb)).unzip()
+        ubb, ut = uz[0]
+        ue = b.expr(ut["a"][0])
+        clos = [x for x in mir.walk(ue) if isinstance(x, tuple) and x and x[0] == "agg" and x[1] == "closure" and len(x) > 4]
+        ok = False
+        if ue[0] == "call" and ue[1] == "std::iter::Iterator::map" and clos:
+            cbody = F.by_dp.get((b.crate, clos[-1][4]))
+            if cbody is not None:
+                r = cbody.expr(["c", [0]])
+                if r[0] == "agg" and r[1] == "tuple" and len(r[3]) == 2:
+                    e0, e1 = r[3][0][1], r[3][1][1]
+                    news = mir.calls_in(e0, "chmux::port_allocator::PortReq::new")
+                    s0 = mir.show(news[0][2][0]) if news else ""
+                    s1 = mir.show(e1)
+                    # both components come from the closure's one tuple argument: <arg>.0 -> PortReq::new, <arg>.1 -> callback
+                    ok = bool(news) and s0.endswith(".0") and s1.endswith(".1") and s0[:-2] == s1[:-2]
+        u = b.expr(["c", ut["d"]]) if ut.get("d") else None
+        ports_vec = ("proj", ("call", "std::iter::Iterator::unzip", (), ubb), ("0",))
+        cb_vec = ("proj", ("call", "std::iter::Iterator::unzip", (), ubb), ("1",))
+    ck.expect(ok, "base::Sender::send#collect", "port and callback collected from the same tuple of the same iteration",
+              "ports and callbacks are not collected from the same request tuple", b.loc(pp[0][0]) if pp else b.loc(0))
     cs = [(bb, t) for bb, t in b.calls("chmux::sender::Sender::connect")]
     ck.expect(bool(cs) and ports_vec is not None and mir.same_value(b.expr(cs[0][1]["a"][1]), ports_vec),
               "base::Sender::send#connect-arg", "connect is given the collected ports",
